@@ -17,6 +17,7 @@ import (
 	"fmt"
 	"io"
 	"net/http"
+	"net/url"
 	"path/filepath"
 	"sort"
 	"strconv"
@@ -462,6 +463,15 @@ func (prop) Run(t *testing.T, tape *kernel.Tape, sc kernel.Scenario) *kernel.Res
 	useAuth := tape.Bool(3, "client-auth")
 	getBodyCalls := 1 + tape.Choose(3, "getbody-calls")
 	inspect := tape.Bool(2, "auth-writer-inspects-the-request")
+	staticLoser := ""
+	if tape.Bool(4, "static-query-parameter-in-the-pattern") {
+		for _, v := range target.vals {
+			if v.p.In == "query" && v.p.Type != "array" {
+				staticLoser = v.p.Name
+				break
+			}
+		}
+	}
 	if useAuth {
 		env.Fault("client-auth-getbody")
 	}
@@ -535,14 +545,25 @@ func (prop) Run(t *testing.T, tape *kernel.Tape, sc kernel.Scenario) *kernel.Res
 			PullMode: tape.Choose(4, "pull"), PullFixed: 1 + tape.Choose(900, "pull-fixed")}
 		rt := client.New("sim.local", basePath, []string{"http"})
 		rt.Transport = bridge
-		cop := &runtime.ClientOperation{ID: target.op.ID, Method: target.op.Method, PathPattern: target.op.Path, Schemes: []string{"http"},
+		pattern := target.op.Path
+		if staticLoser != "" {
+			// a fixed query parameter written into the pattern, with the name of one the caller sets: the caller's value is the one that counts
+			pattern += "?" + url.QueryEscape(staticLoser) + "=static-value-that-must-lose"
+		}
+		cop := &runtime.ClientOperation{ID: target.op.ID, Method: target.op.Method, PathPattern: pattern, Schemes: []string{"http"},
 			ProducesMediaTypes: []string{target.prod}, Params: target,
 			Reader: runtime.ClientResponseReaderFunc(func(r runtime.ClientResponse, c runtime.Consumer) (any, error) {
 				obs.ran = true
 				obs.code = r.Code()
 				obs.hdrs = map[string]string{}
-				for k := range target.hdrs {
+				for k, v := range target.hdrs {
 					obs.hdrs[k] = r.GetHeader(k)
+					// the list form must hand back the same single line, whatever punctuation it contains
+					if all := r.GetHeaders(k); len(all) != 1 || all[0] != obs.hdrs[k] {
+						if obs.hdrs[k] == v {
+							obs.hdrs[k] = fmt.Sprintf("GetHeaders=%q", all)
+						}
+					}
 				}
 				raw, rerr := io.ReadAll(r.Body())
 				obs.raw, obs.err = raw, rerr
